@@ -181,6 +181,19 @@ class Run(object):
         if rec["op"] == "state":
             self.cores = build_state(rec["spec"])
             self.state = self.ttm.TT([c.copy() for c in self.cores])
+            if rec["spec"].get("via_sut"):
+                # realistic preparation: scale the state and let the library's own right-orthonormalisation and norm
+                # bring it back (real components); it must again be normalised and right-orthonormal
+                t = self.ttm.TT([c.copy() for c in self.cores])
+                t.cores[-1] = t.cores[-1] * 3.0
+                t = t.ortho_right()
+                t = (1.0 / t.norm()) * t
+                if any(M.right_gram_defect(c) > 1e-10 for c in t.cores[1:]) or abs(np.linalg.norm(t.cores[0].ravel()) - 1.0) > 1e-10:
+                    self.probes["sut_preparation_not_orthonormal_skipped"] += 1
+                else:
+                    self.state = t
+                    self.cores = [np.array(c, dtype=complex) for c in t.cores]
+                    self.probes["state_prepared_by_sut"] += 1
             self.snap = M.Snapshot(self.state)
             self.log.add("snap", self.snap.meta, arr_digest(self.snap.dense))
             return "ok"
@@ -326,7 +339,8 @@ def generate_and_run(seed, keep_events=False):
         n = rnd.randint(1, cfg["max_n"])
         kind = rnd.choice(cfg["kinds"])
         ranks = [1] + [rnd.randint(1, cfg["max_rank"]) for _ in range(n - 1)] + [1]
-        rec = {"op": "state", "spec": {"n": n, "kind": kind, "ranks": ranks, "sub_seed": rnd.getrandbits(48)}}
+        rec = {"op": "state", "spec": {"n": n, "kind": kind, "ranks": ranks, "sub_seed": rnd.getrandbits(48),
+                                       "via_sut": rnd.random() < 0.4}}
         records.append(rec)
         run.step(rec)
         for _ in range(cfg["length"]):
